@@ -34,7 +34,7 @@ class C08(Prop):
 
     # ------------------------------------------------------------------ generation
     def _event_geom(self, rng, anchor):
-        mode = rng.choice(["near", "near", "same", "far", "other"])
+        mode = rng.choice(["near", "near", "near", "same", "same", "far", "other"])
         if mode == "same":
             return dict(anchor)
         if mode == "far":
@@ -58,7 +58,7 @@ class C08(Prop):
 
     def _clip(self, rng, nv):
         anchor = {"type": "BoundingBox", "coordinates": [Fraction(1), Fraction(1000), Fraction(2), Fraction(2000)]}
-        na, npred = rng.randint(0, 4), rng.randint(0, 4)
+        na, npred = rng.choice([0, 1, 2, 2, 3, 4]), rng.choice([0, 1, 2, 2, 3, 4])
         anns = [{"geom": None if rng.random() < 0.15 else self._event_geom(rng, anchor),
                  "tag": rng.choice([None, "oov"] + list(range(nv)) * 2)} for _ in range(na)]
         preds = [{"geom": None if rng.random() < 0.15 else self._event_geom(rng, anchor),
@@ -68,10 +68,10 @@ class C08(Prop):
     def _case(self, rng):
         nv = rng.randint(2, 4)
         ids = [0, 1, 2, 3]
-        pred_ids = rng.sample(ids, rng.randint(0, 3))
-        ann_ids = rng.sample(ids, rng.randint(0, 3))
-        if rng.random() < 0.7 and pred_ids and ann_ids and not set(pred_ids) & set(ann_ids):
-            ann_ids[0] = pred_ids[0]
+        pred_ids = rng.sample(ids, rng.choice([0, 1, 2, 2, 3, 3]))
+        ann_ids = rng.sample(ids, rng.choice([0, 1, 2, 2, 3, 3]))
+        if rng.random() < 0.9 and pred_ids and ann_ids and not set(pred_ids) & set(ann_ids):
+            ann_ids[rng.randrange(len(ann_ids))] = rng.choice(pred_ids)
         clips = {cid: self._clip(rng, nv) for cid in set(pred_ids) | set(ann_ids)}
         return {"kind": "detection", "nv": nv, "pred_ids": pred_ids, "ann_ids": ann_ids, "clips": {str(k): v for k, v in clips.items()}}
 
